@@ -179,7 +179,12 @@ func (ev *Evaluator) eval(e Expr) SVal {
 					return SVal{v: Val{t: fmt.Sprintf("(elemref %s %s)", s.v.t, i.v.t)}, typ: types.NewPointer(st.Elem())}
 				}
 			}
-			unsupported("spec: & only supported on slice elements")
+			if id, ok := x.X.(*EIdent); ok && ev.lk != nil {
+				if v, ok := ev.lk("&"+id.Name, ev.st); ok {
+					return v
+				}
+			}
+			unsupported("spec: & only supported on slice elements and on local variables that live in memory")
 		}
 	case *EBinary:
 		return ev.binary(x)
@@ -1077,6 +1082,13 @@ func (ev *Evaluator) goCall(fn *ssa.Function, args []SVal) SVal {
 
 func (fr *Frame) lookupName(name string, st *State, li *loopInfo) (SVal, bool) {
 	fx := fr.fx
+	if strings.HasPrefix(name, "&") {
+		// &x: the cell of a local variable that lives in memory (its address is taken or it is accessed by field)
+		if v, ok := fr.addrNames[name[1:]]; ok {
+			return SVal{v: fr.val(v), typ: v.Type()}, true
+		}
+		return SVal{}, false
+	}
 	if name == "$i" || name == "$k" {
 		if li == nil || li.rangeIx == nil {
 			unsupported("spec: $i outside a range-index loop")
